@@ -202,7 +202,7 @@ func TestRandomSchemas(t *testing.T) {
 			return c.Shape.MaxRanges >= 4 || c.Shape.Aliases > 0 || c.Shape.DupKeys > 0
 		},
 		Classes: schemaClasses,
-		Quick:   2500, Thorough: 40000,
+		Quick:   2000, Thorough: 25000,
 	})
 }
 
